@@ -93,7 +93,9 @@ Section Mode.
     exists st', f_readAll st h = (st', if rd then (true, snd (buf_read_all b)) else (false, [])) /\
                 file_handle st' h rd wr (if rd then fst (buf_read_all b) else b) /\ frame st st' h.
   Proof.
-    intro H. unfold f_readAll. destruct (g_size_spec st h b H) as (st1 & E1 & H1 & F1). rewrite E1.
+    intro H. unfold f_readAll. destruct H as (f0 & Hf0 & Df0 & Hrest). rewrite Hf0, Df0.
+    assert (H : file_handle st h rd wr b) by (exists f0; split; [exact Hf0|split; [exact Df0|exact Hrest]]).
+    destruct (g_size_spec st h b H) as (st1 & E1 & H1 & F1). rewrite E1.
     unfold buf_size. destruct (Z.of_nat (length (b_data b)) <? 0) eqn:C; [apply Z.ltb_lt in C; lia|].
     rewrite Nat2Z.id.
     destruct (g_read_spec st1 h b (length (b_data b)) H1) as (st2 & E2 & H2 & F2). rewrite E2.
@@ -131,7 +133,9 @@ Section Mode.
     exists st', h_step st h o = (st', snd (abuf_step rd wr b o)) /\
                 file_handle st' h rd wr (fst (abuf_step rd wr b o)) /\ frame st st' h.
   Proof.
-    intro H. destruct o as [d|off wh| |n|]; unfold h_step, abuf_step.
+    intro H. destruct o as [d|off wh| |n| |]; unfold h_step, abuf_step.
+    6: { unfold f_flush. destruct H as (f & Hf & Hr). rewrite Hf. exists st. split; [reflexivity|].
+         split; [exists f; split; [exact Hf|exact Hr]|apply frame_refl]. }
     - destruct (g_write_spec st h b d H) as (st' & E & H' & F). rewrite E. destruct wr; eauto.
     - destruct (g_seek_spec st h b off wh H) as (st' & E & H' & F). rewrite E.
       destruct (buf_seek b off wh). eauto.
